@@ -65,7 +65,18 @@ def find_engine_decider(proj: Project) -> Decider:
 
 def find_legacy_decider(proj: Project) -> Decider:
     fi = proj.func('merchant_utils.normalize_merchant')
-    return _find(proj, fi, 'legacy')
+    d = _find(proj, fi, 'legacy')
+    # the legacy rules are tuples taken apart in the loop: the rules of C01/C02/C09/C14 speak about the components by the names they are
+    # unpacked into.  If the loop does not unpack its rule into names any more (a record type, index access …) none of them can bind.
+    unpacked = set()
+    for st in ast.walk(d.loop):
+        if isinstance(st, ast.Assign) and isinstance(st.value, ast.Name) and st.value.id == d.rule_var:
+            for t in st.targets:
+                unpacked |= set(target_names(t))
+    if not ({'pattern', 'category'} <= unpacked):
+        raise AnalysisError(f'{fi.short}: the legacy rule loop no longer unpacks its rule tuples into pattern / merchant / category … (found {sorted(unpacked)}): '
+                            f'the rules written for that shape do not apply')
+    return d
 
 
 def _find(proj: Project, fi: FuncInfo, kind: str) -> Decider:
